@@ -33,7 +33,7 @@ fn instantiate(kind: &str, ctx: &Context, prev: &Option<String>) -> String {
         "L" => h("arr"), "M" => h("mp"), "S" => h("st"), "Y" => h("by"), "R" => h("rel"), "CL" => h("carr"), "CM" => h("cmp"), "B" => "handle:zzzzzzzzzzzzzzzzzzzz".into(),
         "PREV" => prev.clone().unwrap_or_default(),
         "E" => String::new(), "0" => "0".into(), "1" => "1".into(), "-1" => "-1".into(), "5" => "5".into(), "HUGE" => "99999999999999999999".into(), "I64" => "9223372036854775808".into(),
-        "DEC" => "1.5".into(), "W" => "abc".into(), "MB" => "héllo😀".into(), "SP" => "a b".into(), "QT" => "say \"hi\" #now".into(), "QT2" => "a b #c\"d 'e".into(), "NL" => "two\nlines".into(),
+        "DEC" => "1.5".into(), "W" => "abc".into(), "MB" => "héllo😀".into(), "SP" => "a b".into(), "QT" => "say \"hi\" #now".into(), "QT2" => "a b #c\"d 'e".into(), "NL" => "two\nlines".into(), "LF" => "\n".into(), "CRLF" => "\r\n".into(),
         "COPY" => "--copy".into(), "-r" => "-r".into(), "COLL" => "--collection".into(), "PREFIX" => "--prefix".into(), "IN" => "in".into(), "SCOPE" => "<scope>".into(),
         "KV" => "a=b".into(), "JSON" => "{\"k\":[1,null,{\"a\":\"b\"}]}".into(), "SEMVER" => "1.2.3".into(), "VAR" => "v".into(), "NOVAR" => "nope".into(),
         "F" => "f.txt".into(), "D" => "d".into(), "G" => "d/g.txt".into(), "GLOB" => "*.txt".into(), "NOFILE" => "missing/none.txt".into(), "SEPEXT" => "d/g.txt".into(),
